@@ -101,59 +101,10 @@ func checkHOTPDerivation(c *Check, w *World, tb *TB, iv *IV, ef *Effects, pfx st
 		// entry must select the hash of the same name
 		tabl := enumSwitchFuncs(w, tb, der, roles.Algo)
 		if ht := macT.Args[0]; len(tabl) == 0 && ht.Op == "index" && len(ht.Args) == 2 {
-			idx := ht.Args[1]
-			for idx.Op == "conv" && len(idx.Args) == 1 {
-				idx = idx.Args[0]
-			}
-			arr := ht.Args[0]
-			if arr.Op == "slice" {
-				arr = arr.Args[0]
-			}
-			if arr.Op == "mem" {
-				// the array's content as a whole: find the local it names
-				EachInstr(der, func(x ssa.Instruction) {
-					if a, ok := x.(*ssa.Alloc); ok {
-						if t := tb.Of(a); t.Op == "alloc" && strings.TrimSuffix(t.Sym, ".") == strings.TrimSuffix(arr.Sym, ".") {
-							arr = t
-						}
-					}
-				})
-			}
-			if a, ok := arr.Val.(*ssa.Alloc); ok && arr.Op == "alloc" && idx.String() == roles.Algo {
-				saved := tb.curLoad
-				tb.curLoad = nil
-				allocOfMem := func(sym string) (*ssa.Alloc, *Term) {
-					var ra *ssa.Alloc
-					var rt *Term
-					EachInstr(der, func(x ssa.Instruction) {
-						if al, ok := x.(*ssa.Alloc); ok {
-							if t := tb.Of(al); t.Op == "alloc" && strings.TrimSuffix(t.Sym, ".") == strings.TrimSuffix(sym, ".") {
-								ra, rt = al, t
-							}
-						}
-					})
-					return ra, rt
+			if lt, idx := localFuncArray(tb, der, ht); idx != nil && idx.String() == roles.Algo {
+				for k, v := range lt {
+					tabl[k] = v
 				}
-				for k := int64(0); k < 16; k++ {
-					e := tb.cellContent(a, arr, []string{fmt.Sprintf("[%d]", k)}, nil)
-					// the literal may be built in a temporary and copied over as a whole
-					for hop := 0; hop < 3 && e.Op == "index" && len(e.Args) == 2 && e.Args[0].Op == "mem" && e.Args[1].IsConst(); hop++ {
-						if a2, t2 := allocOfMem(e.Args[0].Sym); a2 != nil {
-							e = tb.cellContent(a2, t2, []string{"[" + e.Args[1].Sym + "]"}, nil)
-						} else {
-							break
-						}
-					}
-					if e.Op == "zero" {
-						continue
-					}
-					if e.Op == "fn" {
-						tabl[k] = e.Sym
-					} else {
-						tabl[k] = "?" + clip(e.String(), 60)
-					}
-				}
-				tb.curLoad = saved
 			}
 		}
 		for k, want := range wantHash {
@@ -736,4 +687,70 @@ func init() {
 		thorough: []Config{CfgNative, Cfg386, CfgWasm},
 		run:      runC01,
 	})
+}
+
+// localFuncArray: ht = arr[idx] with arr a local array literal of functions (hashes := [...]func() hash.Hash{…}):
+// index → the function stored there ("?…" when it is not a function), and the index term (conversions stripped).
+func localFuncArray(tb *TB, der *ssa.Function, ht *Term) (map[int64]string, *Term) {
+	tabl := map[int64]string{}
+	if ht.Op != "index" || len(ht.Args) != 2 {
+		return nil, nil
+	}
+	idx := ht.Args[1]
+	for idx.Op == "conv" && len(idx.Args) == 1 {
+		idx = idx.Args[0]
+	}
+	arr := ht.Args[0]
+	if arr.Op == "slice" {
+		arr = arr.Args[0]
+	}
+	if arr.Op == "mem" {
+		// the array's content as a whole: find the local it names
+		EachInstr(der, func(x ssa.Instruction) {
+			if a, ok := x.(*ssa.Alloc); ok {
+				if t := tb.Of(a); t.Op == "alloc" && strings.TrimSuffix(t.Sym, ".") == strings.TrimSuffix(arr.Sym, ".") {
+					arr = t
+				}
+			}
+		})
+	}
+	a, ok := arr.Val.(*ssa.Alloc)
+	if !ok || arr.Op != "alloc" {
+		return nil, nil
+	}
+	saved := tb.curLoad
+	tb.curLoad = nil
+	defer func() { tb.curLoad = saved }()
+	allocOfMem := func(sym string) (*ssa.Alloc, *Term) {
+		var ra *ssa.Alloc
+		var rt *Term
+		EachInstr(der, func(x ssa.Instruction) {
+			if al, ok := x.(*ssa.Alloc); ok {
+				if t := tb.Of(al); t.Op == "alloc" && strings.TrimSuffix(t.Sym, ".") == strings.TrimSuffix(sym, ".") {
+					ra, rt = al, t
+				}
+			}
+		})
+		return ra, rt
+	}
+	for k := int64(0); k < 16; k++ {
+		e := tb.cellContent(a, arr, []string{fmt.Sprintf("[%d]", k)}, nil)
+		// the literal may be built in a temporary and copied over as a whole
+		for hop := 0; hop < 3 && e.Op == "index" && len(e.Args) == 2 && e.Args[0].Op == "mem" && e.Args[1].IsConst(); hop++ {
+			if a2, t2 := allocOfMem(e.Args[0].Sym); a2 != nil {
+				e = tb.cellContent(a2, t2, []string{"[" + e.Args[1].Sym + "]"}, nil)
+			} else {
+				break
+			}
+		}
+		if e.Op == "zero" {
+			continue
+		}
+		if e.Op == "fn" {
+			tabl[k] = e.Sym
+		} else {
+			tabl[k] = "?" + clip(e.String(), 60)
+		}
+	}
+	return tabl, idx
 }
